@@ -447,6 +447,8 @@ static void copy_lvalue_range (svalue_t * from) {
           {
             char *tmp, *dstr = owner->u.string;
 
+            if (size - ind2 + ind1 + fsize > CONFIG_INT (__MAX_STRING_LENGTH__))
+              error ("*String too long.");
             owner->u.string = tmp = new_string (size - ind2 + ind1 + fsize, "copy_lvalue_range");
             if (ind1 >= 1)
               {
@@ -578,6 +580,8 @@ static void assign_lvalue_range (svalue_t * from) {
           {
             char *tmp, *dstr = owner->u.string;
 
+            if (size - ind2 + ind1 + fsize > CONFIG_INT (__MAX_STRING_LENGTH__))
+              error ("*String too long.");
             owner->u.string = tmp =
               new_string (size - ind2 + ind1 + fsize, "assign_lvalue_range");
             if (ind1 >= 1)
